@@ -14,10 +14,10 @@
 //@ fragment: NEWCOMPALL :: src/debugger/breakpoint.rs :: impl Breakpoint / fn new_watchpoint_companion :: `BEGIN` .. `END`
 //@ harness: name=c14_companion_new prop=C14,C02 unit=C14.companion_new mode=complete fn="Breakpoint::new_watchpoint_companion (number / watchpoint-list decision)" timeout=600
 //@ assume: C14.companion_new: the registry is a one-slot map with the call shape of BreakpointRegistry::get_enabled; the whole body is spliced verbatim into an impl whose `Self::new_inner` records the (number, watchpoint list) arguments of the real constructor call
-//@ harness: name=c02_enable prop=C02 unit=C02.patch.enable mode=complete fn="Breakpoint::enable"
-//@ harness: name=c02_disable prop=C02 unit=C02.patch.disable mode=complete fn="Breakpoint::disable"
-//@ harness: name=c02_roundtrip prop=C02 unit=C02.patch.roundtrip mode=complete fn="Breakpoint::enable, Breakpoint::disable"
-//@ harness: name=c02_reenable prop=C02 unit=C02.patch.reenable mode=complete fn="Breakpoint::enable, Breakpoint::disable"
+//@ harness: name=c02_enable prop=C02,C01 unit=C02.patch.enable mode=complete fn="Breakpoint::enable"
+//@ harness: name=c02_disable prop=C02,C01 unit=C02.patch.disable mode=complete fn="Breakpoint::disable"
+//@ harness: name=c02_roundtrip prop=C02,C01 unit=C02.patch.roundtrip mode=complete fn="Breakpoint::enable, Breakpoint::disable"
+//@ harness: name=c02_reenable prop=C02,C01 unit=C02.patch.reenable mode=complete fn="Breakpoint::enable, Breakpoint::disable"
 //@ assume: nix::sys::ptrace::read/write replaced by a one-word memory model: PEEKDATA(a) returns the word at a, POKEDATA(a,w) replaces exactly that word, either may fail and then changes nothing
 //@ notcovered: temporary breakpoints removed after steps, disable_all_breakpoints on exit/restart/detach, the original instruction executing once when stepping over (ptrace sequencing), debuggee output/exit status
 //
